@@ -1,6 +1,6 @@
 (** C17 — property theorems only. *)
 From Coq Require Import List NArith ZArith Bool.
-From C33 Require Import C16.Proto C16.Model C16.Spec C17.Model C17.Spec C17.Proofs.
+From C33 Require Import C16.Proto C16.Model C16.Spec C17.Model C17.Spec C17.Proofs C17.ProofsFee.
 Import ListNotations.
 
 (** CreateTxGroup produces the hash structure that Check demands. *)
@@ -28,6 +28,39 @@ Theorem C17_created_group_checks_partial :
 Proof. exact created_group_checks_partial. Qed.
 Print Assumptions C17_created_group_checks_partial.
 
+(** The fee CreateTxGroup puts on the head covers what Check asks of the signed
+    group at the creation rate: unsigned inputs (300 bytes are budgeted per
+    signature), signature fields of at most 300 encoded bytes, no wrap-around. *)
+Theorem C17_created_fee_sufficient :
+  forall (H : list N -> list N) txs rate G L,
+    (forall a b, length (H a) = length (H b)) ->
+    create_group H txs rate = inr G ->
+    Forall (fun t => signature t = None) txs ->
+    (0 <= rate)%Z -> (101 * rate * Z.of_nat (length txs) < 2 ^ 63)%Z ->
+    map unsig L = map unsig G ->
+    Forall sig_small L ->
+    exists tot, sum_fees L rate 0 = Some tot /\ (tot <= head_fee L)%Z.
+Proof. exact created_fee_sufficient. Qed.
+Print Assumptions C17_created_fee_sufficient.
+
+(** Created from unsigned inputs, signed, presented at the creation rate: accepted. *)
+Theorem C17_created_group_passes_partial :
+  forall (H : list N -> list N) txs rate G L e,
+    (forall a b, length (H a) = length (H b)) ->
+    create_group H txs rate = inr G ->
+    last_next_empty txs = true ->
+    Forall (fun t => signature t = None) txs ->
+    (0 <= rate)%Z -> (101 * rate * Z.of_nat (length txs) < 2 ^ 63)%Z ->
+    (Z.of_nat (length txs) <= max_group)%Z ->
+    map unsig L = map unsig G -> Forall sig_small L ->
+    e_minfee e = rate ->
+    existsb (chain_bad e) L = false ->
+    (is_fork (e_height e) (e_para e) = true -> para_ok L = true) ->
+    ((head_fee L >? e_maxfee e)%Z && (e_maxfee e >? 0)%Z && is_fork (e_height e) (e_block e) = false) ->
+    check_group H e L = EOk.
+Proof. exact created_group_passes. Qed.
+Print Assumptions C17_created_group_passes_partial.
+
 Theorem C17_created_group_checks_refuted : ~ C17_created_group_checks_full.
 Proof. exact created_group_checks_refuted. Qed.
 Print Assumptions C17_created_group_checks_refuted.
@@ -44,6 +77,19 @@ Theorem C17_same_header_same_content :
     map unsig L = map unsig G.
 Proof. exact same_header_same_content. Qed.
 Print Assumptions C17_same_header_same_content.
+
+(** An accepted list that starts with any member of a chained group is that
+    group: reordering, dropping, duplicating, inserting, substituting detected. *)
+Theorem C17_member_first_detected :
+  forall (H : list N -> list N), (forall a b, H a = H b -> a = b) ->
+  forall e L G g,
+    chained H G ->
+    Forall (fun t => wf_txb t = true) G -> Forall (fun t => wf_txb t = true) L ->
+    In g G -> unsig (hd dtx L) = unsig g ->
+    check_group H e L = EOk ->
+    map unsig L = map unsig G.
+Proof. exact member_first_detected. Qed.
+Print Assumptions C17_member_first_detected.
 
 (** What passes Check and CheckSign, when only members of G were ever signed,
     is G member by member, and every signature on it is an issued one (up to
